@@ -303,7 +303,9 @@ def finish(mod, acc, tier, seed, wall, nshards):
         if e is not None:
             matched.append({'finding': e.get('id'), 'signature': v['signature'],
                             'clause': v['clause'], 'count': acc.viol_counts[hk]})
-            lines.append('KNOWN-FINDING: property=%s %s' % (prop, e.get('what', e.get('id'))))
+            ln = 'KNOWN-FINDING: property=%s %s' % (prop, e.get('what', e.get('id')))
+            if ln not in lines:        # one line per listed finding, however many signatures it covers
+                lines.append(ln)
             continue
         os.makedirs(rdir, exist_ok=True)
         path = os.path.join(rdir, '%s.json' % hk)
